@@ -36,7 +36,7 @@ Verdict(r) ==
          \cup (IF want.ok /\ r.hooks = "1" /\ Len(ev) # Len(r.rules) THEN {"EveryChangeTriedOnce"} ELSE {}))]
 
 TraceInit == /\ l = 1 /\ verdicts = <<>>
-             /\ file0 = [pkg |-> "p", body |-> <<"a">>] /\ rules = <<>> /\ cur = file0 /\ k = 1 /\ st = "done" /\ log = <<>>
+             /\ file0 = [pkg |-> "p", body |-> <<>>] /\ rules = <<>> /\ cur = file0 /\ k = 1 /\ st = "done" /\ log = <<>>
 TraceNext == l <= Len(Trace) /\ l' = l + 1 /\ verdicts' = Append(verdicts, Verdict(Trace[l])) /\ UNCHANGED vars
 TraceSpec == TraceInit /\ [][TraceNext]_<<vars, tvars>>
 Flush == (l = Len(Trace) + 1) => ndJsonSerialize(OutFile, verdicts)
